@@ -109,13 +109,13 @@ def incidence_stream(ctx, n):
             p0 = np.array([rng.randint(-3, 3) for _ in range(dim + 1)], dtype=float)
             onq = rng.random() < 0.6
             if onq:
-                # make p0 lie on the quadric by replacing A: A' = A - (p0^T A p0 / (p0.p0)^2) p0 p0^T
-                pp = float(p0 @ p0)
-                if pp == 0:
-                    continue
+                # make p0 lie on the quadric, keeping all magnitudes moderate (the library's tolerance is absolute):
+                # p0 gets last coordinate 1 and the corner entry of A absorbs the value p0^T A p0
+                p0[-1] = 1.0
                 val = float(p0 @ A @ p0)
-                A2 = A * pp * pp - val * np.outer(p0, p0)
-                if abs(np.linalg.det(A2)) < 0.5:
+                A2 = A.copy()
+                A2[-1, -1] -= val
+                if abs(np.linalg.det(A2)) < 0.5 or np.max(np.abs(A2)) > 60:
                     continue
                 Q = Quadric(A2.astype(int))
             P = g.Point(p0)
